@@ -756,13 +756,52 @@ fn gen(seed: u64, n: usize, path: &str, tier: &str) -> std::io::Result<()> {
     f.flush()
 }
 
+/// one output line per input line, in order (like `hx_common::run_ops`); cases are independent (state is
+/// per case, the native DOM arena and the logs are thread-local), so they are spread over threads
+fn run_parallel(ops_path: &str, out_path: &str) -> std::io::Result<()> {
+    use std::io::Write;
+    let text = std::fs::read_to_string(ops_path)?;
+    let lines: Vec<&str> = text.lines().map(|l| l.trim()).collect();
+    let mut starts = vec![0usize];
+    for (i, l) in lines.iter().enumerate() {
+        if i > 0 && l.starts_with("case ") {
+            starts.push(i);
+        }
+    }
+    starts.push(lines.len());
+    let ncase = starts.len() - 1;
+    let nthreads = std::thread::available_parallelism().map(|n| n.get()).unwrap_or(1).min(16).max(1);
+    let next = std::sync::atomic::AtomicUsize::new(0);
+    let results: Vec<std::sync::Mutex<Vec<String>>> = (0..ncase).map(|_| Default::default()).collect();
+    std::thread::scope(|sc| {
+        for _ in 0..nthreads {
+            sc.spawn(|| loop {
+                let c = next.fetch_add(1, std::sync::atomic::Ordering::Relaxed);
+                if c >= ncase {
+                    break;
+                }
+                let mut sess: Option<Session> = None;
+                let outs: Vec<String> = lines[starts[c]..starts[c + 1]].iter().map(|l| op(&mut sess, l)).collect();
+                drop(sess);
+                *results[c].lock().unwrap() = outs;
+            });
+        }
+    });
+    let mut out = std::io::BufWriter::new(std::fs::File::create(out_path)?);
+    for r in results {
+        for l in r.into_inner().unwrap() {
+            writeln!(out, "{l}")?;
+        }
+    }
+    out.flush()
+}
+
 fn main() {
     match parse_cli() {
         Cmd::Gen { seed, n, ops, tier } => gen(seed, n, &ops, &tier).unwrap(),
         Cmd::Run { ops, out } => {
             quiet_panics();
-            let mut sess: Option<Session> = None;
-            run_ops(&ops, &out, |l| op(&mut sess, l)).unwrap()
+            run_parallel(&ops, &out).unwrap()
         }
     }
 }
